@@ -1564,7 +1564,7 @@ Proof.
   destruct (kw_head (kw_using T) (32 :: of_string n ++ 32 :: 61 :: 32 :: int_prefix i ++ w) (kwok_using T Hok)) as [c0 [Hh0 Hc0]].
   rewrite skip_ws_kw by apply (kwok_using T Hok). rewrite (strip_at_lower c0 _ Hh0 Hc0).
   rewrite (cf_strip (kw_import T) (kw_using T)) by (apply (cf_import_x T Hok); cbn; tauto).
-  rewrite strip_prefix_app. rewrite tok_sp, (tok_type_ok T Hok) by (try exact Hn; reflexivity). cbn [lbind].
+  rewrite strip_prefix_app. rewrite tok_sp, (tok_type_ok T) by (try exact Hn; reflexivity). cbn [lbind].
   rewrite expect_sp, expect_lit by reflexivity. cbn [lbind]. rewrite skip_ws_sp.
   rewrite (skip_ws_head c _ Hh (lower_not_ws c Hc)), Hint. rewrite expect_sp. unfold expect.
   rewrite (skip_ws_head c _ Hh (lower_not_ws c Hc)).
